@@ -169,3 +169,318 @@ Theorem C02_e2e_download_all : forall (HO : hops), hash_ok HO ->
      snd (hist_step HO (init_target HO data, init_ob HO data bs k) (mkOp HO [0%N] (enc ++ rest) no_faults fsm)) = ob).
 Proof. exact e2e_download_all. Qed.
 Print Assumptions C02_e2e_download_all.
+
+(* ======== Gap audit H (proofs in Proofs/GapHNodes.v, GapHShort.v, GapHFault.v, GapHRound.v, GapHMixed.v) ========
+   (i)   decode_ranges (sync and fsm) of the honest encoding into a target of ANY length and content and EVERY sink
+         of the crate: Ok, reader exactly at the end, exactly the honest leaves written and the honest pairs stored;
+         the leaves are disjoint runs in increasing order: every selected chunk in exactly one, no other in any;
+   (ii)  the NON-validating encoders where legitimate (groups_full; every query at block size 0);
+   (iii) encoder geometry from the store vs decoder geometry given separately; store intact on the plan only;
+   (iv)  the item stream of mixed.rs. *)
+From BaoV Require Import Model.IO Model.Sync Model.Fsm Spec.RangeSpec Spec.PlanWf Spec.NodeSpec Spec.EncSpec Spec.HashAssm.
+From BaoV Require Import Proofs.BridgeLeaves Proofs.DecForest Proofs.DecRanges Proofs.EncThm Proofs.EncNonval Proofs.ValSpec
+  Proofs.HistOb Proofs.HistEnc Proofs.HistInv Proofs.FinalStore Proofs.GapValFsmView
+  Proofs.GapTarget Proofs.GapHNodes Proofs.GapHFrame Proofs.GapHShort Proofs.GapHFault Proofs.GapHRound Proofs.GapHExtra Proofs.GapHMixed Proofs.GapHMixedC.
+Local Open Scope N_scope.
+
+(* ---- the items of the honest encoding ---- *)
+
+(* every parent item names a node that stores a pair (a persisted node of the Shape) or lies below the block level (every outboard ignores it) *)
+Theorem C02_honest_parent_class : forall (HO : hops) (data : bytes HO) (bs : N) (q : ranges),
+  wf_ranges q = true -> blen HO data <= 2 ^ 63 -> bs <= 10 ->
+  forall nd l r, In (IParent nd l r) (honest HO data bs q) ->
+  pnode (blen HO data) bs nd \/ level nd < bs.
+Proof. exact honest_parent_class. Qed.
+Print Assumptions C02_honest_parent_class.
+
+Theorem C02_leaf_runs_def : forall (HO : hops),
+  leaf_runs HO [] = [] /\
+  (forall off d ys, leaf_runs HO (ILeaf off d :: ys) = (off / 1024, off / 1024 + leaf_chunks (blen HO d)) :: leaf_runs HO ys) /\
+  (forall nd l r ys, leaf_runs HO (IParent nd l r :: ys) = leaf_runs HO ys).
+Proof. exact gaph_leaf_runs_def. Qed.
+Print Assumptions C02_leaf_runs_def.
+
+Theorem C02_runs_sorted_def : forall (lo hi : N),
+  (runs_sorted lo [] hi <-> lo <= hi) /\
+  (forall s e l, runs_sorted lo ((s, e) :: l) hi <-> lo <= s /\ s < e /\ runs_sorted e l hi).
+Proof. exact gaph_runs_sorted_def. Qed.
+Print Assumptions C02_runs_sorted_def.
+
+(* the leaves are runs [s, e) of chunks with 0 <= s1 < e1 <= s2 < e2 <= ... <= nchunks: increasing offsets, no overlap *)
+Theorem C02_leaves_sorted : forall (HO : hops) (data : bytes HO) (bs : N) (q : ranges),
+  blen HO data <= 2 ^ 63 ->
+  runs_sorted 0 (leaf_runs HO (honest HO data bs q)) (nchunks (blen HO data)).
+Proof. exact honest_leaves_sorted. Qed.
+Print Assumptions C02_leaves_sorted.
+
+Theorem C02_holders_def : forall (HO : hops) (ys : list (item HO)) (c : N),
+  holders HO ys c = length (filter (fun it => item_has HO it c) ys).
+Proof. exact gaph_holders_def. Qed.
+Print Assumptions C02_holders_def.
+
+(* each selected chunk is delivered exactly once, no other chunk at all *)
+Theorem C02_each_once : forall (HO : hops) (data : bytes HO) (bs : N) (q : ranges) (c : N),
+  wf_ranges q = true -> blen HO data <= 2 ^ 63 -> bs <= 10 -> c < nchunks (blen HO data) ->
+  holders HO (honest HO data bs q) c = if sel q (blen HO data) c then 1%nat else 0%nat.
+Proof. exact honest_each_once. Qed.
+Print Assumptions C02_each_once.
+
+(* ---- (i) every sink ----
+   ob_pad: the store with its bytes cut / zero-extended to (blocks - 1) * 64 (Props/C07.v, C07_short_defs; the identity
+   on pre-sized stores: C07_short_pad_id); saved ys nd: nd is the node of a parent item of ys (C07_saved_def) *)
+
+Theorem C02_sink_ok_def : forall (HO : hops) (data : bytes HO) (bs : N) (ob : outboard HO),
+  sink_ok HO data bs ob <-> (is_io (ob_k ob) = true \/ ob_k ob = EmptyOb \/ ob_sized HO ob (blen HO data) bs).
+Proof. exact gaph_sink_ok_def. Qed.
+Print Assumptions C02_sink_ok_def.
+
+Theorem C02_roundtrip_sinks : forall (HO : hops), hash_ok HO ->
+  forall (data : bytes HO) (bs : N), blen HO data <= 2 ^ 63 -> bs <= 10 ->
+  forall (q : ranges) (rest target : bytes HO) (sink : outboard HO), wf_ranges q = true ->
+  ob_root sink = root_hash HO data -> ob_tree sink = mkTree (blen HO data) bs -> sink_ok HO data bs sink ->
+  exists ob',
+    (exists st', decode_ranges HO (flat HO (honest HO data bs q) ++ rest) q target sink =
+                 (Ok tt, write_leaves HO target (honest HO data bs q), ob', st') /\ d_enc HO st' = rest) /\
+    (exists st', decode_ranges_fsm HO (flat HO (honest HO data bs q) ++ rest) q target sink =
+                 (Ok tt, write_leaves HO target (honest HO data bs q), ob', st') /\ Fsm.r_enc HO st' = rest) /\
+    apply_items HO (honest HO data bs q) target sink = (SOk, write_leaves HO target (honest HO data bs q), ob') /\
+    ob_k ob' = ob_k sink /\ ob_root ob' = ob_root sink /\ ob_tree ob' = ob_tree sink /\
+    (ob_k sink = EmptyOb -> ob' = sink) /\
+    (hist_kind (ob_k sink) -> forall nd, pnode (blen HO data) bs nd ->
+       stored_pair HO (ob_pad HO data bs ob') nd =
+       if saved HO (honest HO data bs q) nd then Some (true_pair HO data nd)
+       else stored_pair HO (ob_pad HO data bs sink) nd) /\
+    skipn (N.to_nat ((sp_blocks (blen HO data) bs - 1) * 64)) (ob_data ob') =
+      skipn (N.to_nat ((sp_blocks (blen HO data) bs - 1) * 64)) (ob_data sink).
+Proof. exact gaph_roundtrip_sinks. Qed.
+Print Assumptions C02_roundtrip_sinks.
+
+Theorem C02_sinks_nonvacuous : forall (HO : hops) (data : bytes HO) (bs : N), blen HO data <= 2 ^ 63 -> bs <= 10 ->
+  forall k : ob_kind, exists sink : outboard HO,
+    ob_k sink = k /\ ob_root sink = root_hash HO data /\ ob_tree sink = mkTree (blen HO data) bs /\ sink_ok HO data bs sink.
+Proof. exact gaph_sinks_nonvacuous. Qed.
+Print Assumptions C02_sinks_nonvacuous.
+
+(* the bytes of that target (pad: Props/C01.v, C01_pad_def): nothing from the blob's length on is touched, the target never shrinks, below the blob's length exactly the selected chunks are the blob's and every other chunk keeps its (zero-extended) old bytes *)
+Theorem C02_roundtrip_sinks_bytes : forall (HO : hops), hash_ok HO ->
+  forall (data : bytes HO) (bs : N), blen HO data <= 2 ^ 63 -> bs <= 10 ->
+  forall (q : ranges) (target : bytes HO), wf_ranges q = true ->
+  let n := length data in
+  let target' := write_leaves HO target (honest HO data bs q) in
+  skipn n target' = skipn n target /\ (length target <= length target')%nat /\
+  (forall c, c < nchunks (blen HO data) ->
+     chunk_bytes HO (pad HO n target') c (c + 1) =
+     if sel q (blen HO data) c then chunk_bytes HO data c (c + 1) else chunk_bytes HO (pad HO n target) c (c + 1)) /\
+  (length target = length data -> length target' = length data /\
+     forall c, c < nchunks (blen HO data) ->
+       chunk_bytes HO target' c (c + 1) =
+       if sel q (blen HO data) c then chunk_bytes HO data c (c + 1) else chunk_bytes HO target c (c + 1)).
+Proof. exact roundtrip_sinks_bytes. Qed.
+Print Assumptions C02_roundtrip_sinks_bytes.
+
+(* any prefix of the honest encoding (a truncated stream) applied to any sink *)
+Theorem C02_sink_apply : forall (HO : hops), hash_ok HO ->
+  forall (data : bytes HO) (bs : N), blen HO data <= 2 ^ 63 -> bs <= 10 ->
+  forall (q : ranges) (ys : list (item HO)) (t : bytes HO) (ob : outboard HO),
+  wf_ranges q = true -> is_prefix ys (honest HO data bs q) ->
+  ob_tree ob = mkTree (blen HO data) bs -> sink_ok HO data bs ob ->
+  exists ob', apply_items HO ys t ob = (SOk, write_leaves HO t ys, ob') /\
+    ob_k ob' = ob_k ob /\ ob_root ob' = ob_root ob /\ ob_tree ob' = ob_tree ob /\
+    (ob_k ob = EmptyOb -> ob' = ob) /\
+    (hist_kind (ob_k ob) -> forall nd, pnode (blen HO data) bs nd ->
+       stored_pair HO (ob_pad HO data bs ob') nd =
+       if saved HO ys nd then Some (true_pair HO data nd) else stored_pair HO (ob_pad HO data bs ob) nd) /\
+    skipn (N.to_nat ((sp_blocks (blen HO data) bs - 1) * 64)) (ob_data ob') =
+      skipn (N.to_nat ((sp_blocks (blen HO data) bs - 1) * 64)) (ob_data ob) /\
+    blen HO (ob_data ob) <= blen HO (ob_data ob').
+Proof. exact gaph_sink_apply. Qed.
+Print Assumptions C02_sink_apply.
+
+(* ---- (iii) the two geometries; a store intact on the plan only ---- *)
+
+(* both decoders on the honest encoding of EVERY well-formed query (the empty one included), set up from three separate values *)
+Theorem C02_decoders_roundtrip_any : forall (HO : hops), hash_ok HO ->
+  forall (data : bytes HO) (bs : N) (q : ranges), blen HO data <= 2 ^ 63 -> bs <= 10 -> wf_ranges q = true ->
+  forall (root : hash HO) (size' bs' : N), root = root_hash HO data -> size' = blen HO data -> bs' = bs ->
+  forall rest : bytes HO,
+  (exists st, dec_run HO (dec_new HO root (mkTree size' bs') (flat HO (honest HO data bs q) ++ rest) q)
+              = (honest HO data bs q, Finished, st) /\ d_enc HO st = rest) /\
+  (exists st, rd_run HO (rd_new HO root q (mkTree size' bs') (flat HO (honest HO data bs q) ++ rest))
+              = (honest HO data bs q, Finished, st) /\ Fsm.r_enc HO st = rest).
+Proof. exact decoders_roundtrip_any. Qed.
+Print Assumptions C02_decoders_roundtrip_any.
+
+(* the encoder reads its geometry (size, block size, root) from the store, the decoder gets (root, size, block size) separately; when the store's claims are the blob's and its pairs are intact on the parents of the encoder's plan - whatever else it holds - the round trip holds for the decoder given the same three values *)
+Theorem C02_roundtrip_intact_plan : forall (HO : hops), hash_ok HO ->
+  forall (data : bytes HO) (bs : N) (q : ranges), blen HO data <= 2 ^ 63 -> bs <= 10 -> wf_ranges q = true ->
+  forall ob : outboard HO,
+  ob_tree ob = mkTree (blen HO data) bs -> ob_root ob = root_hash HO data ->
+  forall (root : hash HO) (size' bs' : N), root = ob_root ob -> mkTree size' bs' = ob_tree ob ->
+  ((forall nd, In nd (enc_nodes (blen HO data) bs q) -> stored_ok HO data ob nd) ->
+   exists enc, encode_ranges_validated HO data ob q = (Ok tt, enc) /\ enc = flat HO (honest HO data bs q) /\
+     forall rest : bytes HO,
+     (exists st, dec_run HO (dec_new HO root (mkTree size' bs') (enc ++ rest) q) = (honest HO data bs q, Finished, st) /\
+                 d_enc HO st = rest) /\
+     (exists st, rd_run HO (rd_new HO root q (mkTree size' bs') (enc ++ rest)) = (honest HO data bs q, Finished, st) /\
+                 Fsm.r_enc HO st = rest)) /\
+  ((forall nd, In nd (enc_nodes (blen HO data) bs q) -> stored_ok_fsm HO data ob nd) ->
+   exists enc, encode_ranges_validated_fsm HO data ob q = (Ok tt, enc) /\ enc = flat HO (honest HO data bs q) /\
+     forall rest : bytes HO,
+     (exists st, dec_run HO (dec_new HO root (mkTree size' bs') (enc ++ rest) q) = (honest HO data bs q, Finished, st) /\
+                 d_enc HO st = rest) /\
+     (exists st, rd_run HO (rd_new HO root q (mkTree size' bs') (enc ++ rest)) = (honest HO data bs q, Finished, st) /\
+                 Fsm.r_enc HO st = rest)).
+Proof. exact roundtrip_intact_plan. Qed.
+Print Assumptions C02_roundtrip_intact_plan.
+
+(* a store that is intact on the plan without being a created store: 64 of 128 bytes *)
+Theorem C02_intact_plan_nonvacuous :
+  exists (HO : hops) (data : bytes HO) (bs : N) (q : ranges) (ob : outboard HO),
+    hash_ok HO /\ blen HO data <= 2 ^ 63 /\ bs <= 10 /\ wf_ranges q = true /\ q <> [] /\
+    ob_tree ob = mkTree (blen HO data) bs /\ ob_root ob = root_hash HO data /\
+    enc_nodes (blen HO data) bs q = [1] /\
+    (forall nd, In nd (enc_nodes (blen HO data) bs q) -> stored_ok HO data ob nd) /\
+    (forall nd, In nd (enc_nodes (blen HO data) bs q) -> stored_ok_fsm HO data ob nd) /\
+    blen HO (ob_data ob) = 64 /\ sp_blocks (blen HO data) bs = 3 /\ ~ created_store HO data bs ob.
+Proof. exact intact_plan_nonvacuous. Qed.
+Print Assumptions C02_intact_plan_nonvacuous.
+
+(* ---- (ii) the non-validating encoders ---- *)
+
+Theorem C02_groups_full_bs0 : forall (q : ranges) (size : N), groups_full 0 q size.
+Proof. exact groups_full_bs0. Qed.
+Print Assumptions C02_groups_full_bs0.
+
+(* on a created store, when every touched chunk group is fully selected: the bytes are the honest encoding and decode with the same query, by both decoders and both drivers into every sink *)
+Theorem C02_nonval_roundtrip : forall (HO : hops), hash_ok HO ->
+  forall (data : bytes HO) (bs : N), blen HO data <= 2 ^ 63 -> bs <= 10 ->
+  forall ob : outboard HO, created_store HO data bs ob ->
+  forall q : ranges, wf_ranges q = true -> groups_full bs q (blen HO data) ->
+  exists enc, encode_ranges HO data ob q = (Ok tt, enc) /\ encode_ranges_fsm HO data ob q = (Ok tt, enc) /\
+    enc = flat HO (honest HO data bs q) /\
+    (forall rest : bytes HO,
+       (exists st, dec_run HO (dec_new HO (ob_root ob) (ob_tree ob) (enc ++ rest) q) = (honest HO data bs q, Finished, st) /\
+                   d_enc HO st = rest) /\
+       (exists st, rd_run HO (rd_new HO (ob_root ob) q (ob_tree ob) (enc ++ rest)) = (honest HO data bs q, Finished, st) /\
+                   Fsm.r_enc HO st = rest)) /\
+    (forall (rest target : bytes HO) (sink : outboard HO),
+       ob_root sink = ob_root ob -> ob_tree sink = ob_tree ob -> sink_ok HO data bs sink ->
+       exists ob',
+         apply_items HO (honest HO data bs q) target sink = (SOk, write_leaves HO target (honest HO data bs q), ob') /\
+         (exists st', decode_ranges HO (enc ++ rest) q target sink =
+                      (Ok tt, write_leaves HO target (honest HO data bs q), ob', st') /\ d_enc HO st' = rest) /\
+         (exists st', decode_ranges_fsm HO (enc ++ rest) q target sink =
+                      (Ok tt, write_leaves HO target (honest HO data bs q), ob', st') /\ Fsm.r_enc HO st' = rest)).
+Proof. exact nonval_roundtrip. Qed.
+Print Assumptions C02_nonval_roundtrip.
+
+(* at block size 0: every well-formed query *)
+Theorem C02_nonval_roundtrip_bs0 : forall (HO : hops), hash_ok HO ->
+  forall (data : bytes HO), blen HO data <= 2 ^ 63 ->
+  forall ob : outboard HO, created_store HO data 0 ob ->
+  forall q : ranges, wf_ranges q = true ->
+  exists enc, encode_ranges HO data ob q = (Ok tt, enc) /\ encode_ranges_fsm HO data ob q = (Ok tt, enc) /\
+    enc = flat HO (honest HO data 0 q) /\
+    forall rest : bytes HO,
+      (exists st, dec_run HO (dec_new HO (ob_root ob) (ob_tree ob) (enc ++ rest) q) = (honest HO data 0 q, Finished, st) /\
+                  d_enc HO st = rest) /\
+      (exists st, rd_run HO (rd_new HO (ob_root ob) q (ob_tree ob) (enc ++ rest)) = (honest HO data 0 q, Finished, st) /\
+                  Fsm.r_enc HO st = rest).
+Proof. exact nonval_roundtrip_bs0. Qed.
+Print Assumptions C02_nonval_roundtrip_bs0.
+
+(* ---- (iv) the item stream of mixed.rs (traverse_ranges_validated) ----
+   The items are NOT the decoder's items: inside a partially selected chunk group the crate sends parents with
+   TreeNode(0) (src/io/mixed.rs:262, 292: 'todo: figure out how to get the tree node from the start chunk') and
+   one leaf per CHUNK where the decoder yields the real node ids and one leaf per fully selected subtree.  What
+   holds: the bytes are the honest encoding (C08_mixed_frame), and fed item by item to any target and any sink of
+   the blob's geometry the items have exactly the effect of the honest items. *)
+
+(* the recursive specification of traverse_selected_rec inside one chunk group *)
+Theorem C02_mix_rec_def : forall (HO : hops) (data : bytes HO) (Sel : N -> bool) (a b : N),
+  mix_rec HO 0 data Sel a b = [] /\
+  forall f, mix_rec HO (S f) data Sel a b =
+    if negb (existsb Sel (chunk_range_list a b)) then []
+    else if b - a <=? 1 then [ILeaf (a * 1024) (chunk_bytes HO data a b)]
+    else
+      (if forallb Sel (chunk_range_list a b) then []
+       else [IParent 0 (cv HO data a (a + next_pow2 (b - a) / 2) false) (cv HO data (a + next_pow2 (b - a) / 2) b false)])
+      ++ mix_rec HO f data Sel a (a + next_pow2 (b - a) / 2) ++ mix_rec HO f data Sel (a + next_pow2 (b - a) / 2) b.
+Proof. exact gaph_mix_rec_def. Qed.
+Print Assumptions C02_mix_rec_def.
+
+(* one unit of the encoder's plan as the item stream sends it *)
+Theorem C02_mixed_unit_spec_def : forall (HO : hops) (data : bytes HO) (bs : N) (q : ranges),
+  (forall nd ir lf rt rs, mixed_unit_spec HO data bs q (CParent nd ir lf rt rs) =
+     [IParent nd (fst (true_pair HO data nd)) (snd (true_pair HO data nd))]) /\
+  (forall s sz ir rs, mixed_unit_spec HO data bs q (CLeaf s sz ir rs) =
+     if r_is_all rs then [ILeaf (s * 1024) (chunk_bytes HO data s (N.min (s + 2 ^ bs) (nchunks (blen HO data))))]
+     else mix_rec HO 64 data (sel q (blen HO data)) s (N.min (s + 2 ^ bs) (nchunks (blen HO data)))).
+Proof. exact gaph_mixed_unit_spec_def. Qed.
+Print Assumptions C02_mixed_unit_spec_def.
+
+(* mixed_items: unit by unit of the encoder's own plan *)
+Theorem C02_mixed_items_def : forall (HO : hops) (data : bytes HO) (bs : N) (q : ranges),
+  blen HO data <= 2 ^ 63 -> bs <= 10 ->
+  mixed_items HO data bs q =
+  concat (map (mixed_unit_spec HO data bs q)
+              (pre_order_chunks_iter (mkTree (blen HO data) bs) (truncate_ranges q (blen HO data)) 0)).
+Proof. exact gaph_mixed_items_def. Qed.
+Print Assumptions C02_mixed_items_def.
+
+(* on a store intact on the parents of the plan: the stream is Size, exactly mixed_items, Done; same bytes, same leaves written, same effect on every target and every sink with the blob's geometry (any kind, any length) as the honest items *)
+Theorem C02_mixed_stream : forall (HO : hops), hash_ok HO ->
+  forall (data : bytes HO) (bs : N), blen HO data <= 2 ^ 63 -> bs <= 10 -> forall q : ranges, wf_ranges q = true ->
+  forall ob : outboard HO, ob_tree ob = mkTree (blen HO data) bs -> ob_root ob = root_hash HO data ->
+  (forall nd, In nd (enc_nodes (blen HO data) bs q) -> stored_ok HO data ob nd) ->
+  traverse_ranges_validated HO data ob q =
+    Some (ESize (blen HO data) :: map EItem (mixed_items HO data bs q) ++ [EDone]) /\
+  concat (map (item_bytes HO) (mixed_items HO data bs q)) = flat HO (honest HO data bs q) /\
+  (forall target : bytes HO,
+     write_leaves HO target (mixed_items HO data bs q) = write_leaves HO target (honest HO data bs q)) /\
+  (forall (target : bytes HO) (sink : outboard HO), ob_tree sink = mkTree (blen HO data) bs ->
+     apply_items HO (mixed_items HO data bs q) target sink = apply_items HO (honest HO data bs q) target sink) /\
+  (forall (target : bytes HO) (sink : outboard HO), ob_tree sink = mkTree (blen HO data) bs -> sink_ok HO data bs sink ->
+     exists ob', apply_items HO (mixed_items HO data bs q) target sink =
+                 (SOk, write_leaves HO target (honest HO data bs q), ob')).
+Proof. exact gaph_mixed_stream. Qed.
+Print Assumptions C02_mixed_stream.
+
+(* its leaves: runs of selected chunks of the blob at their offsets - a single chunk, or a whole fully selected chunk group *)
+Theorem C02_mixed_leaves : forall (HO : hops) (data : bytes HO) (bs : N), blen HO data <= 2 ^ 63 -> bs <= 10 ->
+  forall q : ranges, wf_ranges q = true ->
+  forall off (d : bytes HO), In (ILeaf off d) (mixed_items HO data bs q) ->
+  exists s e, off = s * 1024 /\ d = chunk_bytes HO data s e /\ s < e /\ e <= nchunks (blen HO data) /\
+    (forall x, s <= x -> x < e -> sel q (blen HO data) x = true) /\
+    (e = s + 1 \/ (e = N.min (s + 2 ^ bs) (nchunks (blen HO data)) /\ exists ga, s = ga * 2 ^ bs)).
+Proof. exact gaph_mixed_leaves. Qed.
+Print Assumptions C02_mixed_leaves.
+
+(* the items differ from the honest items: 4 chunks, one chunk group of 4 (block size 2), chunks 0 and 1 selected: the stream is Parent(node 0), Leaf(0, 1024 bytes), Leaf(1024, 1024 bytes); the decoder's items are Parent(node 1), Leaf(0, 2048 bytes) *)
+Theorem C02_mixed_items_refuted :
+  exists (HO : hops) (data : bytes HO) (bs : N) (ob : outboard HO) (q : ranges) (its : list (item HO)),
+    hash_ok HO /\ blen HO data <= 2 ^ 63 /\ bs <= 10 /\ wf_ranges q = true /\ created_store HO data bs ob /\
+    ob_k ob = PreMem /\ ob_data ob = [] /\
+    traverse_ranges_validated HO data ob q = Some (ESize (blen HO data) :: map EItem its ++ [EDone]) /\
+    its <> honest HO data bs q /\
+    length its = 3%nat /\ length (honest HO data bs q) = 2%nat /\
+    (exists l r, nth 0 its (ILeaf 0 []) = IParent 0 l r) /\
+    (exists d, nth 1 its (ILeaf 0 []) = ILeaf 0 d /\ blen HO d = 1024) /\
+    (exists d, nth 2 its (ILeaf 0 []) = ILeaf 1024 d /\ blen HO d = 1024) /\
+    (exists l r, nth 0 (honest HO data bs q) (ILeaf 0 []) = IParent 1 l r) /\
+    (exists d, nth 1 (honest HO data bs q) (ILeaf 0 []) = ILeaf 0 d /\ blen HO d = 2048).
+Proof. exact mixed_items_refuted. Qed.
+Print Assumptions C02_mixed_items_refuted.
+
+Theorem C02_mixed_nonvacuous :
+  exists (HO : hops) (data : bytes HO) (bs : N) (q : ranges) (ob : outboard HO),
+    hash_ok HO /\ blen HO data <= 2 ^ 63 /\ bs <= 10 /\ wf_ranges q = true /\ created_store HO data bs ob /\
+    ob_tree ob = mkTree (blen HO data) bs /\ ob_root ob = root_hash HO data /\
+    (forall nd, In nd (enc_nodes (blen HO data) bs q) -> stored_ok HO data ob nd) /\
+    enc_nodes (blen HO data) bs q = [3] /\
+    mixed_items HO data bs q <> honest HO data bs q /\
+    length (mixed_items HO data bs q) = 4%nat /\ length (honest HO data bs q) = 3%nat /\
+    (forall k : ob_kind, exists sink : outboard HO,
+       ob_k sink = k /\ ob_tree sink = mkTree (blen HO data) bs /\ sink_ok HO data bs sink).
+Proof. exact mixed_apply_nonvacuous. Qed.
+Print Assumptions C02_mixed_nonvacuous.
